@@ -118,6 +118,60 @@ REFS = {
 }
 
 
+_RNK = {"k": "k2", "v": "v2", "s": "s2", "j": "j2"}
+
+
+def _jnat(kind, **kw):
+    def ref(S):
+        hdr, rows, _ = RJ.ref_join(S[0], _proj(S[1], ("k", "v")), kind, **kw)
+        return [hdr] + rows
+    return ref
+
+
+REFS.update({
+    "leftjoin_missing_prefix": (_jref("left", key="k", missing="M", lprefix="l_", rprefix="r_"), "multiset"),
+    "lookupjoin_missing": (_jref("lookup", key="k", missing="M"), "multiset"),
+    "hashleftjoin_missing": (_jref("left", key="k", missing="M"), "seq"),
+    "crossjoin_missing": (lambda S: _tab(RJ.ref_crossjoin(S, missing="M")), "seq"),
+    "hashjoin_kw": (_jref("inner", key="k"), "seq"),
+    "hashleftjoin_kw": (_jref("left", key="k"), "seq"),
+    "hashrightjoin_kw": (_jref("right", key="k"), "multiset"),
+    "join_natural": (_jnat("inner"), "multiset"),
+    "mergesort_reverse": (lambda S: R.ref_sort(R.ref_cat(S), "k", reverse=True), "seq"),
+    "mergesort_nokey": (lambda S: R.ref_sort(R.ref_cat(S)), "seq"),
+    "mergesort_three": (lambda S: R.ref_sort(R.ref_cat(S), ("k", "j")), "seq"),
+    "mergesort_header": (lambda S: R.ref_sort(R.ref_cat([S[0], _rn(S[1], {"v": "v2"})], missing="M", header=["k", "s", "v2", "zz"]), "k"), "seq"),
+    "stack_notrim": (lambda S: RO.ref_stack(S, trim=False), "seq"),
+    "stack_nopad": (lambda S: RO.ref_stack(S, pad=False, missing="M"), "seq"),
+    "annex_missing": (lambda S: RO.ref_annex(S, missing="M"), "seq"),
+})
+for _k, _kind in (("leftjoin", "left"), ("rightjoin", "right"), ("outerjoin", "outer"), ("antijoin", "anti"), ("lookupjoin", "lookup")):
+    _sq = {} if _kind != "anti" else {"squareup": False}
+    REFS[_k + "_lrkey"] = (_jref(_kind, rn=_RNK, lkey="k", rkey="k2", **_sq), "multiset")
+    REFS[_k + "_natural"] = (_jnat(_kind, **_sq), "multiset")
+
+
+def _col(t, f):
+    i = list(t[0]).index(f)
+    return [r[i] for r in t[1:]]
+
+
+def _addcolumn(S):
+    col = _col(S[1], "v")
+    rows = [tuple(r) for r in S[0][1:]]
+    n = len(S[0][0])
+    out = [tuple(S[0][0]) + ("z",)]
+    for i in range(max(len(rows), len(col))):
+        row = rows[i] if i < len(rows) else (None,) * n
+        out.append(tuple(row) + (col[i] if i < len(col) else None,))
+    return out
+
+
+REFS["selectin_lazy"] = (lambda S: [tuple(S[0][0])] + [tuple(r) for r in S[0][1:] if r[list(S[0][0]).index("v")] in _col(S[1], "v")], "seq")
+REFS["selectnotin_lazy"] = (lambda S: [tuple(S[0][0])] + [tuple(r) for r in S[0][1:] if r[list(S[0][0]).index("k")] not in _col(S[1], "k")], "seq")
+REFS["addcolumn_lazy"] = (_addcolumn, "seq")
+
+
 def _keyless(S, spec):
     rows = [tuple(r) for r in S[0][1:]]
     vi = list(S[0][0]).index("v")
